@@ -173,7 +173,7 @@ func knownBad(kind, s string) string {
 		}
 	case "property", "discriminator":
 		if kind == "discriminator" {
-			if c := nameClass(s); c != "word" && c != "separators" || !isASCII(s) || goKeywords[strings.ToLower(s)] || predeclared[strings.ToLower(s)] {
+			if c := nameClass(s); c != "word" && c != "separators" || !isASCII(s) || goKeywords[strings.ToLower(s)] || predeclared[strings.ToLower(s)] || strings.HasPrefix(k, "set") {
 				return "polymorphic-property-name"
 			}
 		}
